@@ -47,7 +47,7 @@ func recordsToken(set entities.Set) string {
 			vals = append(vals, valueToken(e))
 		}
 		if len(vals) == 0 {
-			recs = append(recs, "-")
+			recs = append(recs, ".")
 		} else {
 			recs = append(recs, strings.Join(vals, ","))
 		}
